@@ -6,8 +6,11 @@ import "fmt"
 // wanted features) at the guards each property is about.  The case files evaluate the
 // correspondence and the property's monitor (Corr/Monitors.v) on the implementation's trace.
 
-func histSuite(name, monitor, rule string, quick, thorough, nops int, want map[string]bool, weights map[string]int, dev int) {
+func histSuite(name, monitor, rule string, quick, thorough, nops int, want map[string]bool, weights map[string]int, dev int, scenarios ...func(*RunCtx)) {
 	register(&Suite{Name: name, Run: func(ctx *RunCtx) {
+		for _, sc := range scenarios {
+			sc(ctx)
+		}
 		runSysHistories(ctx, ctx.N(quick, thorough), nops, want, weights, dev, []string{"copy", "alias"}, name)
 		ctx.Meta.Rule = rule + "; distinct by projected trace; non-trivial = at least one accepted and one refused operation"
 		ctx.writeSysCases(monitor, true)
@@ -45,9 +48,132 @@ func scenarioRevokeExpired(ctx *RunCtx) {
 	}
 }
 
+// The acceptors of C05 (introspection, userinfo, TokenInfo, TokenInfoFromRequest) crossed with every
+// way an access token stops being live - its own lifetime elapsed while the grant (refresh token) is
+// still alive, revocation of the access or of the refresh token, a refresh that superseded it (with
+// and without rotation), the grant's absolute expiry, a replay of the code it came from - for both
+// token formats and both storage flavours.  Deterministic, so that every (state, acceptor) pair is
+// exercised on every run; the random histories of the suite add the interleavings.
+func scenarioAcceptorMatrix(ctx *RunCtx) {
+	states := []string{"live", "lifetime-elapsed", "revoked", "refresh-token-revoked", "superseded", "superseded-rotation", "grant-expired", "code-replayed"}
+	for _, fl := range []string{"copy", "alias"} {
+		for _, client := range []int{1, 2} { // c1: opaque tokens, c2: JWT
+			for _, st := range states {
+				opts := []Opt{{Name: "WithScopes", Scopes: serverScopes}, {Name: "WithAuthorizationCodeGrant"},
+					{Name: "WithRefreshTokenGrant", Z: 1000}, {Name: "WithTokenRevocation"}, {Name: "WithTokenIntrospection"},
+					{Name: "WithTokenLifetime", Z: 40}}
+				if st == "superseded-rotation" {
+					opts = append(opts, Opt{Name: "WithRefreshTokenRotation"})
+				}
+				spec := WorldSpec{Profile: "openid", Flavour: fl, Static: baseClients(ctx.R), Opts: opts}
+				g, err := NewSysGen(ctx.R, spec)
+				if err != nil {
+					panic(err)
+				}
+				redirect := fmt.Sprintf("https://c%d.example/cb", client)
+				p := Params{Redirect: redirect, RespType: "code", Scopes: "openid email", State: "st-1"}
+				cred := Cred{ID: client, OK: true}
+				nav := g.do(Op{Kind: "Authorize", Client: client, Params: p, PolicyAvail: true, Pol: Pol{Kind: "PolSuccess", Sub: "alice", Granted: "openid email"}})
+				tok := g.do(Op{Kind: "Token", Grant: "authorization_code", Cred: cred, Code: nav.NCode, Redirect: redirect, HG: "HgOk", BA: "BaApprove"})
+				if tok.Kind != "Tokens" || tok.Rt == 0 {
+					panic(fmt.Sprintf("c05 acceptor matrix: the code flow did not yield tokens: %+v", tok))
+				}
+				present := func(h Handle) {
+					ex := PTok{Kind: "PExact", H: h}
+					g.do(Op{Kind: "Introspect", Cred: cred, Tok: ex, Allowed: true})
+					g.do(Op{Kind: "UserInfo", Tok: ex, HasHeader: true})
+					g.do(Op{Kind: "TokenInfo", Tok: ex})
+					g.do(Op{Kind: "TokenInfoReq", Tok: ex, HasHeader: true})
+					if client == 2 {
+						g.do(Op{Kind: "UserInfo", Tok: PTok{Kind: "PJti", H: h}, HasHeader: true})
+						g.do(Op{Kind: "Introspect", Cred: cred, Tok: PTok{Kind: "PJti", H: h}, Allowed: true})
+					}
+				}
+				newAt := Handle(0)
+				switch st {
+				case "lifetime-elapsed":
+					g.doTick(45)
+				case "revoked":
+					g.do(Op{Kind: "Revoke", Cred: cred, Tok: PTok{Kind: "PExact", H: tok.At}, Allowed: true})
+				case "refresh-token-revoked":
+					g.do(Op{Kind: "Revoke", Cred: cred, Tok: PTok{Kind: "PExact", H: tok.Rt}, Allowed: true})
+				case "superseded", "superseded-rotation":
+					g.doTick(12)
+					if o := g.do(Op{Kind: "Token", Grant: "refresh_token", Cred: cred, Refresh: tok.Rt, HG: "HgOk", BA: "BaApprove"}); o.Kind == "Tokens" {
+						newAt = o.At
+					}
+				case "grant-expired":
+					g.doTick(1005)
+				case "code-replayed":
+					g.do(Op{Kind: "Token", Grant: "authorization_code", Cred: cred, Code: nav.NCode, Redirect: redirect, HG: "HgOk", BA: "BaApprove"})
+				}
+				present(tok.At)
+				if newAt != 0 {
+					present(newAt)
+				}
+				// the refresh token where an access token belongs, and what the grant still yields
+				g.do(Op{Kind: "UserInfo", Tok: PTok{Kind: "PExact", H: tok.Rt}, HasHeader: true})
+				g.do(Op{Kind: "Token", Grant: "refresh_token", Cred: cred, Refresh: tok.Rt, HG: "HgOk", BA: "BaApprove"})
+				ctx.AddCase(g.Case(fmt.Sprintf("scenario:acceptors/%s/c%d/%s", st, client, fl)))
+				ctx.AddStats(g.stats)
+			}
+		}
+	}
+}
+
+// C17: the session timeout is a deadline fixed when the interaction starts.  A policy of several steps
+// is resumed inside the timeout, then again past the deadline counted from the start (but less than one
+// timeout after the intermediate step): the second resumption must be refused.  A control flow whose
+// steps all fall inside the deadline must finish.
+func scenarioSessionDeadline(ctx *RunCtx) {
+	for _, fl := range []string{"copy", "alias"} {
+		for _, par := range []bool{false, true} {
+			for _, timeout := range []int{100, 400} {
+				for _, late := range []bool{true, false} {
+					opts := []Opt{{Name: "WithScopes", Scopes: serverScopes}, {Name: "WithAuthorizationCodeGrant"},
+						{Name: "WithAuthenticationSessionTimeout", Z: timeout}}
+					if par {
+						opts = append(opts, Opt{Name: "WithPAR", Z: 60})
+					}
+					g, err := NewSysGen(ctx.R, WorldSpec{Profile: "openid", Flavour: fl, Static: baseClients(ctx.R), Opts: opts})
+					if err != nil {
+						panic(err)
+					}
+					p := Params{Redirect: "https://c1.example/cb", RespType: "code", Scopes: "openid email", State: "st-1"}
+					var page Obs
+					if par {
+						pu := g.do(Op{Kind: "Par", Cred: Cred{ID: 1, OK: true}, Params: p})
+						page = g.do(Op{Kind: "Authorize", Client: 1, Params: Params{RequestURI: pu.H, RespType: p.RespType, Scopes: p.Scopes}, PolicyAvail: true, Pol: Pol{Kind: "PolInProgress"}})
+					} else {
+						page = g.do(Op{Kind: "Authorize", Client: 1, Params: p, PolicyAvail: true, Pol: Pol{Kind: "PolInProgress"}})
+					}
+					if page.Kind != "Page" {
+						panic(fmt.Sprintf("c17 deadline scenario: no interactive page: %+v", page))
+					}
+					step := timeout * 6 / 10
+					if !late {
+						step = timeout * 3 / 10
+					}
+					g.doTick(step)
+					g.do(Op{Kind: "Callback", Cb: page.H, Pol: Pol{Kind: "PolInProgress"}})
+					g.doTick(step)
+					g.do(Op{Kind: "Callback", Cb: page.H, Pol: Pol{Kind: "PolInProgress"}})
+					g.doTick(7)
+					fin := g.do(Op{Kind: "Callback", Cb: page.H, Pol: Pol{Kind: "PolSuccess", Sub: "alice", Granted: "openid email"}})
+					g.do(Op{Kind: "Token", Grant: "authorization_code", Cred: Cred{ID: 1, OK: true}, Code: fin.NCode, Redirect: p.Redirect, HG: "HgOk", BA: "BaApprove"})
+					g.do(Op{Kind: "Callback", Cb: page.H, Pol: Pol{Kind: "PolSuccess", Sub: "mallory", Granted: "openid"}})
+					ctx.AddCase(g.Case(fmt.Sprintf("scenario:session-deadline/par=%v/timeout=%d/late=%v/%s", par, timeout, late, fl)))
+					ctx.AddStats(g.stats)
+				}
+			}
+		}
+	}
+}
+
 func init() {
 	register(&Suite{Name: "c05", Run: func(ctx *RunCtx) {
 		scenarioRevokeExpired(ctx)
+		scenarioAcceptorMatrix(ctx)
 		runSysHistories(ctx, ctx.N(140, 5000), 36, map[string]bool{"refresh": true, "implicit": true},
 			map[string]int{"authorize": 12, "callback": 4, "par": 1, "code": 14, "refresh": 10, "cc": 5, "query": 40, "tick": 8, "bc": 2, "poll": 3, "notify": 1}, 40, []string{"copy", "alias"}, "c05")
 		ctx.Meta.Rule = "issuance (opaque and JWT, all grant types), refresh, revocation by owning or other client, code replay, ticks, then presentation of exact, jti-only and forged terms (truncated, extended, re-signed, alg none, edited, other issuer, non-canonical signature) at /introspect, /userinfo, TokenInfo and TokenInfoFromRequest; distinct by projected trace; non-trivial = at least one accepted and one refused operation"
@@ -114,7 +240,7 @@ func init() {
 		map[string]int{"authorize": 2, "callback": 1, "par": 1, "code": 2, "refresh": 5, "cc": 1, "query": 10, "tick": 9, "bc": 24, "poll": 30, "notify": 14}, 30)
 	histSuite("c17", "mon_C17", "interleavings of several users' and clients' interactive flows with multi-step policies (succeed, fail, abandoned), ticks across the session timeout, stale/foreign/unknown callback ids, flows started from pushed requests",
 		120, 4000, 36, map[string]bool{"par": true},
-		map[string]int{"authorize": 26, "callback": 30, "par": 10, "code": 8, "refresh": 2, "cc": 1, "query": 8, "tick": 9, "bc": 1, "poll": 1, "notify": 1}, 30)
+		map[string]int{"authorize": 26, "callback": 30, "par": 10, "code": 8, "refresh": 2, "cc": 1, "query": 8, "tick": 9, "bc": 1, "poll": 1, "notify": 1}, 30, scenarioSessionDeadline)
 	histSuite("c04flow", "mon_C04", "histories over all grant types with requested scope sub/supersets, refresh chains, introspection and userinfo of every token",
 		80, 3000, 36, map[string]bool{"refresh": true, "implicit": true},
 		map[string]int{"authorize": 14, "callback": 6, "par": 3, "code": 16, "refresh": 18, "cc": 8, "query": 20, "tick": 3, "bc": 4, "poll": 6, "notify": 2}, 30)
